@@ -142,7 +142,9 @@ def run_job(job):
             w = wit(m)
             sym, real = KM.numeric(got.z, m), KM.real_mi(w['Y'], w['X'], rk / 8, corr)
             out.validated += 1
-            if not KM.close(sym, real):
+            if real != real or real in (float('inf'), float('-inf')):
+                out.candidates.append({'witness': dict(w, label='non-finite score on the compiled kernel')})
+            elif not KM.close(sym, real):
                 out.error = f'stand-in disagrees with the compiled kernel on {w}: {sym} vs {real}'
             out.sample({'Y': w['Y'], 'X': w['X'], 'r': f'{rk}/8', 'score': real})
     return hutil.run_symx(job, setup, body, wit=wit)
